@@ -195,7 +195,7 @@ __CPROVER_requires(ALLOC_MODEL_BOUND && ITEM_RW(item) && item->refcount < SIZE_M
 __CPROVER_assigns(ALLOC_GHOSTS, item->refcount)
 __CPROVER_ensures(g_malloc_calls == __CPROVER_old(g_malloc_calls) + 1 && g_realloc_calls == __CPROVER_old(g_realloc_calls) &&
                   g_free_calls == __CPROVER_old(g_free_calls))
-__CPROVER_ensures(RET == NULL ==> (g_live == __CPROVER_old(g_live) && item->refcount == __CPROVER_old(item->refcount)))
+__CPROVER_ensures(RET == NULL ==> (g_live == __CPROVER_old(g_live) && item->refcount == __CPROVER_old(item->refcount) && g_refused))
 __CPROVER_ensures(RET == NULL || (__CPROVER_is_fresh(RET, sizeof(cbor_item_t)) &&
                                    RET->refcount == 1 && RET->type == CBOR_TYPE_TAG && TG_META(RET).value == value &&
                                    TG_META(RET).tagged_item == item))
